@@ -4,6 +4,8 @@ pub mod client;
 pub mod env;
 pub mod kabi;
 pub mod ops;
+#[cfg(not(feature = "asyncio"))]
+pub mod ptworld;
 pub mod report;
 pub mod scriptfs;
 pub mod wire;
